@@ -131,9 +131,15 @@ def gen_histories(ctx, cfg):
         sigma += [['SC', A, 0, k] for k in ka] + [['SC', B, 0, k] for k in kb]
         sigma += [['SC', B, 1, k] for k in km] + [['RC', 0, k] for k in kr] + [['RC', 1, kr[0]]]
         sigma += [['SX', A, 0, ka[1]], ['SXM', B, 0, kb[0]], ['RX', 0, kr[1]]]
-    for a in sigma:
-        for b in sigma:
-            add(0, [a, b, ['R', 0]], 'exhaustive-3')
+    pairs = [(a, b) for a in sigma for b in sigma]
+    if len(pairs) > 4000:
+        # thorough alphabet: every pair with a plain op first or second, a seeded sample of the rest
+        plain = [p for p in pairs if p[0][0] in ('R', 'S') or p[1][0] in ('R', 'S')]
+        rest = [p for p in pairs if p not in plain]
+        r.shuffle(rest)
+        pairs = plain + rest[:max(0, 4000 - len(plain))]
+    for a, b in pairs:
+        add(0, [a, b, ['R', 0]], 'exhaustive-3' if len(pairs) == len(sigma) ** 2 else 'pairs-3')
     # 2. random longer histories over all sources and objects
     n_rand = 1200 if thorough else 110
     for _ in range(n_rand):
@@ -460,6 +466,11 @@ def classify(h, steps, i, sentinel):
         op = h['ops'][j]
         rj = steps[j]['res']
         before = steps[j - 1]['ls'] if j > 0 else {}
+        if steps[j]['ls'] == before:
+            # this op left the directory as it was (a read served from the cache,
+            # a crash before the first file effect): not the cause
+            j -= 1
+            continue
         if op[0] == 'S':
             after = 'mesh-only-save' if op[2] else 'complete-save'
         elif op[0] in ('SC', 'SX', 'SXM'):
